@@ -67,7 +67,8 @@ class Binding:
         if cls in ("V1", "V2"):
             return getattr(self, cls)[0](self.val(cls, a))
         if cls == "D":
-            return S.cholesky_jitter(float_value=None if a == 0 else 0.5, double_value=None if b == 0 else 0.25,
+            # (the float slot is set to the legal value 0.0 - "no jitter" - so that falsy values are exercised too)
+            return S.cholesky_jitter(float_value=None if a == 0 else 0.0, double_value=None if b == 0 else 0.25,
                                      half_value=None if c == 0 else 0.125)
         if cls == "CF":
             return S.fast_computations(covar_root_decomposition=self.flagval(a), log_prob=self.flagval(b), solves=True)
@@ -88,7 +89,7 @@ class Binding:
             out[s] = d[s] if exp[s] == 0 else exp[s] == 2
         for s in ("V1", "V2"):
             out[s] = d[s] if exp[s] == 3 else getattr(self, s)[exp[s]]
-        out["Df"] = d["Df"] if exp["Df"] == 3 else 0.5
+        out["Df"] = d["Df"] if exp["Df"] == 3 else 0.0
         out["Dd"] = d["Dd"] if exp["Dd"] == 3 else 0.25
         out["Dh"] = None if exp["Dh"] == 0 else 0.125
         out["solves"] = True
